@@ -134,6 +134,38 @@ def chain_scenario(rng, length=None):
             "chain": names + [s + ("_" + w[1]) * n + ".txt"]}
 
 
+def shared_scenario(rng, idx):
+    """several sources mapping to ONE destination in one plan: the regex planner of `replace` produces such plans
+    (`foo\\d` -> `bar` over foo1.txt, foo2.txt ...), files or directories, 2-3 sources, at root or inside a directory;
+    the by-construction plan goes through applytree (with an identity rename or a skipped duplicate mixed in)"""
+    w = rng.sample(gen.VOCAB, 2)
+    s, r = w[0], w[1]
+    k = 2 + idx % 2
+    kind = "dir" if idx % 4 == 3 else "file"
+    sub = "" if idx % 3 else "pkg/"
+    ext = rng.choice([".txt", ".rs"]) if kind == "file" else ""
+    tree = {}
+    if sub:
+        tree["pkg"] = ("d", 0o755)
+    srcs = [f"{sub}{s}{i + 1}{ext}" for i in range(k)]
+    dst = f"{sub}{r}{ext}"
+    for i, p in enumerate(srcs):
+        if kind == "file":
+            tree[p] = ("f", f"payload {i} of a shared destination\n".encode(), 0o644)
+        else:
+            tree[p] = ("d", 0o755)
+            tree[p + f"/inner{i}.txt"] = ("f", f"inner payload {i}\n".encode(), 0o644)
+    tree[sub + "unrelated.md"] = ("f", b"nothing here\n", 0o644)
+    kd = "d" if kind == "dir" else "f"
+    rens = [(kd, p, dst) for p in srcs]
+    if idx % 5 == 1:
+        rens.insert(1, (kd, srcs[0], dst))                       # the same rename twice: not a conflict
+    if idx % 5 == 2:
+        rens.insert(0, ("f", sub + "unrelated.md", sub + "unrelated.md"))   # identity rename: skipped by the loop
+    return {"search": s + "\\d", "replace": r, "tree": tree, "src": srcs[0], "dst": dst, "occupant": "shared", "kind": kind,
+            "all_rens": rens, "direct": ["replace", s + "\\d", r, "-y", "--no-auto-init", "--quiet"]}
+
+
 def file_multiset(snap):
     out = {}
     for p, v in snap.items():
@@ -148,11 +180,16 @@ def run_cli(ctx, sc):
     with common.scratch() as d:
         common.materialize(d, sc["tree"])
         before = common.snapshot(d)
-        rc, out, err = common.cli(["plan", sc["search"], sc["replace"], "--no-auto-init", "--quiet"], d)
-        plan_path = os.path.join(d, ".renamify", "plan.json")
-        plan = json.load(open(plan_path)) if os.path.exists(plan_path) else None
-        plan_rc = rc
-        rc, out, err = common.cli(["apply", "--no-auto-init", "--quiet"], d) if plan else (plan_rc, b"", err)
+        if sc.get("direct"):
+            # one command that plans and applies (`replace`): no plan file to read, no content edits by construction
+            rc, out, err = common.cli(sc["direct"], d)
+            plan, plan_rc = None, rc
+        else:
+            rc, out, err = common.cli(["plan", sc["search"], sc["replace"], "--no-auto-init", "--quiet"], d)
+            plan_path = os.path.join(d, ".renamify", "plan.json")
+            plan = json.load(open(plan_path)) if os.path.exists(plan_path) else None
+            plan_rc = rc
+            rc, out, err = common.cli(["apply", "--no-auto-init", "--quiet"], d) if plan else (plan_rc, b"", err)
         after = common.snapshot(d)
     # expected contents after the planned edits (reference splice)
     expected = {}
@@ -186,7 +223,7 @@ def run_cli(ctx, sc):
     res["lost"] = lost
     # the occupant (not moved by the plan) must be untouched
     occ_untouched = True
-    if sc["occupant"] not in ("none", "chain"):
+    if sc["occupant"] not in ("none", "chain", "shared"):
         moved = {a for a, _ in res["renames"]}
         if sc["dst"] not in moved:
             occ_untouched = before.get(sc["dst"]) == after.get(sc["dst"])
@@ -201,6 +238,8 @@ def classify(sc, res):
     """None = property holds on this run; else slug of the way it fails"""
     if res["rc"] == 0:
         if res["lost"]:
+            if sc["occupant"] == "shared":
+                return f"shared_destination_{sc['kind']}_lost"
             return "chain_overwrites" if sc["occupant"] == "chain" else f"occupied_{sc['occupant']}_{sc['kind']}_lost"
         if not res["occupant_untouched"]:
             return f"occupied_{sc['occupant']}_{sc['kind']}_replaced"
@@ -216,7 +255,8 @@ def run(ctx):
                        "source file or directory, at root or nested, 4 styles, plus chains (replacement contains the term), plus "
                        "destinations that differ from the source only by letter case and are occupied by a file / directory / "
                        "symlink elsewhere / symlink to the source itself, plus occupied destinations one or two levels inside a "
-                       "directory that the same plan renames; "
+                       "directory that the same plan renames, plus 2-3 sources (files or directories) that one plan maps to ONE "
+                       "destination (regex planner of `replace`; by-construction plans with a repeated or an identity rename mixed in); "
                        "each run through the CLI (plan + apply) and through applytree (model correspondence). "
                        "non-trivial = destination occupied or chain; distinct = (terms, shape)")
     ctx.assumptions += ["POSIX rename(2) semantics as in RModel.Model.Fs", "case-insensitive filesystems not modelled"]
@@ -228,13 +268,16 @@ def run(ctx):
     rng = ctx.rng
     n = 200 if ctx.thorough else 50
     scs = ([scenario(rng, i) for i in range(n)] + [chain_scenario(rng) for _ in range(n // 5)]
-           + [caseonly_scenario(rng, i) for i in range(n // 2)] + [nested_scenario(rng, i) for i in range(n // 2)])
+           + [caseonly_scenario(rng, i) for i in range(n // 2)] + [nested_scenario(rng, i) for i in range(n // 2)]
+           + [shared_scenario(rng, i) for i in range(n // 2)])
 
     # correspondence: a by-construction plan (rename src -> dst) through applytree
     reqs = []
     for sc in scs:
         kind = "d" if sc["kind"] == "dir" else "f"
         rens = [(kind, sc["src"], sc["dst"])] + sc.get("extra_rens", [])
+        if sc["occupant"] == "shared":
+            rens = sc["all_rens"]
         if sc["occupant"] == "chain":
             ch = sc["chain"]
             rens = [("f", ch[i], ch[i + 1]) for i in range(len(ch) - 1)]
